@@ -4,7 +4,7 @@
 
 use crate::engine::{Obs, PResult, Run};
 use crate::fl::X;
-use crate::meanref::{cdf_tol_t, CDF_TOL_Z, POPULATION_LIMIT};
+use crate::meanref::{cdf_tol_t_at, CDF_TOL_Z, POPULATION_LIMIT};
 use crate::model::{bounds, call, Conf, Out};
 use crate::props::de;
 use crate::refmath as rm;
@@ -15,8 +15,9 @@ use stats_ci::comparison::Unpaired;
 use stats_ci::mean::Arithmetic;
 use stats_ci::{proportion, Interval, StatisticsOps};
 
-pub const LEVELS: [f64; 24] = [
-    0.001, 0.005, 0.01, 0.05, 0.1, 0.2, 0.3, 0.4, 0.45, 0.49, 0.5, 0.51, 0.55, 0.6, 0.7, 0.8, 0.9, 0.95, 0.975, 0.99, 0.995, 0.999, 0.9995, 0.9999,
+pub const LEVELS: [f64; 32] = [
+    0.001, 0.005, 0.01, 0.05, 0.1, 0.2, 0.3, 0.4, 0.45, 0.49, 0.499, 0.4999, 0.49999, 0.4999935, 0.5, 0.500001, 0.50001, 0.5001, 0.501, 0.51, 0.55, 0.6, 0.7, 0.8, 0.9, 0.95, 0.975, 0.99, 0.995, 0.999,
+    0.9995, 0.9999,
 ];
 
 #[derive(Clone, Debug, Serialize, Deserialize)]
@@ -78,7 +79,7 @@ fn check_crit(what: &str, dof: f64, c_obs: f64, obs_err: f64, conf: &Conf, ctx: 
     let use_z = dof >= POPULATION_LIMIT || in_band;
     if use_t {
         let f = rm::t_cdf(dof, c_obs);
-        let tol = cdf_tol_t(dof) + obs_err * rm::t_pdf(dof, c_obs) + 4e-16;
+        let tol = cdf_tol_t_at(dof, c_obs) + obs_err * rm::t_pdf(dof, c_obs) + 4e-16;
         let d = (f - target).abs();
         if d <= tol {
             ok = true;
@@ -140,7 +141,7 @@ pub fn probe_case(p: &Probe, obs: &mut Obs) -> PResult {
             check_crit(if p.merged { "mean_merged" } else { "mean" }, dof, c_obs, obs_err, &conf, &|| format!("n={n} ({how}), {conf:?}, interval {i:?}"), obs)?;
         }
     }
-    obs.nontrivial_enum(72);
+    obs.nontrivial_enum(3 * LEVELS.len() as u64);
     let b = if dof < 10.0 {
         "dof<10"
     } else if dof < 200.0 {
@@ -156,7 +157,7 @@ pub fn probe_case(p: &Probe, obs: &mut Obs) -> PResult {
     };
     obs.class(&format!("mean/{how}/{b}"));
     if obs.wants_sample(&format!("mean/{how}/{b}")) {
-        obs.sample(&format!("mean/{how}/{b}"), || json!({"n": n, "built": how, "levels": 24, "kinds": 3}));
+        obs.sample(&format!("mean/{how}/{b}"), || json!({"n": n, "built": how, "levels": 32, "kinds": 3}));
     }
     Ok(())
 }
@@ -265,8 +266,8 @@ fn unpaired_strategy() -> impl Strategy<Value = UnpairedProbe> {
 }
 
 pub fn run(run: &mut Run) {
-    run.technique = "bounded exhaustive enumeration of every integer degree of freedom in a dense range x 24 levels x 3 kinds, plus proptest random real-valued dof via unpaired comparisons; oracle = own t / normal CDF (quadrature) evaluated at the critical value implied by the returned interval".into();
-    run.rule = "probe states of n values ±1 (exact sums) for every n in 2..=N (quick 3000, thorough 20000) by append, and by `+` composition for sizes up to 2^22 dense around 100 000; 24 levels (incl. 0.001..0.49) x 3 kinds at every size; real-valued dof in (1, 2e5) from Unpaired::ci with generated sizes and scales; z implied by ci_wilson bounds; each (dof, level, kind) is distinct".into();
+    run.technique = "bounded exhaustive enumeration of every integer degree of freedom in a dense range x 32 levels x 3 kinds, plus proptest random real-valued dof via unpaired comparisons; oracle = own t / normal CDF (quadrature) evaluated at the critical value implied by the returned interval".into();
+    run.rule = "probe states of n values ±1 (exact sums) for every n in 2..=N (quick 3000, thorough 20000) by append, and by `+` composition for sizes up to 2^22 dense around 100 000; 32 levels (incl. 0.001..0.49) x 3 kinds at every size; real-valued dof in (1, 2e5) from Unpaired::ci with generated sizes and scales; z implied by ci_wilson bounds; each (dof, level, kind) is distinct".into();
     crate::meanref::selftest_into(run);
     let nmax: u64 = run.tier.pick(3000, 20_000);
     run.par((nmax - 1) as usize, |i, obs| {
@@ -274,7 +275,7 @@ pub fn run(run: &mut Run) {
         crate::engine::case_on(obs, "mean", &Probe { n, merged: false }, probe_case);
     });
     run.exhaustive = true;
-    run.exhaustive_parts.push(format!("every integer dof 1..={} x 24 levels x 3 kinds", nmax - 1));
+    run.exhaustive_parts.push(format!("every integer dof 1..={} x 32 levels x 3 kinds", nmax - 1));
     // composed states: sizes dense around the switch and log-spaced up to 2^22
     let mut sizes: Vec<u64> = (99_990..=100_012).collect();
     let count = run.tier.pick(180usize, 5000);
@@ -306,7 +307,7 @@ pub fn run(run: &mut Run) {
     for c in ["mean/appended/dof<10", "mean/appended/dof<2000", "mean/merged/dof~1e5", "mean/merged/dof>1e5", "mean/merged/dof<1e5", "unpaired/dof1-4", "unpaired/dof4-100", "unpaired/dof100-1e5", "proportion_z"] {
         run.require_class(c);
     }
-    run.assumptions.push("'equals' is checked within cdf_tol(dof) = 8 (2e-14 + 1.5e-15 dof^2) on the t branch and 2e-15 on the normal branch: the measured accuracy envelope of statrs 0.18's inverse CDF (DESIGN §4.3); slips inside that envelope are invisible".into());
+    run.assumptions.push("'equals' is checked within cdf_tol(dof, c) = 8 (2e-14 + 1.5e-15 dof^2) + 0.4 min(4e-13 dof / (2|c|), sqrt(4e-13 dof)) on the t branch and 2e-15 on the normal branch: the measured accuracy envelope of statrs 0.18's inverse CDF (DESIGN §4.3); slips inside that envelope are invisible".into());
     run.assumptions.push("within 2 of 100 000 degrees of freedom either branch is accepted".into());
 }
 
